@@ -196,8 +196,8 @@ CLAIMED = {
         "connection failure is always recorded - the clause that exposed the ignore_exc defect repaired in /repo 450311b), and every "
         "single-key method (no-contact raise is only 'all servers down').",
    note="The window bounds and recovery time are history-level consequences of these contracts; they are stated and exercised by the "
-        "bounded replay (event sequences on the real HashClient) but the history induction is not mechanised. _retry_dead's 'never "
-        "raises' and the failed-key list of set_many are not covered. Trusted: dict axioms, C11 contracts, injective node names, monotone clock.",
+        "bounded replay (event sequences on the real HashClient) but the history induction is not mechanised. The failed-key list "
+        "of HashClient.set_many is not covered; _retry_dead never raising is (candidates pairwise distinct and still recorded dead). Trusted: dict axioms, C11 contracts, injective node names, monotone clock.",
    technique="contract-based deductive verification: representation invariant + transition contracts (z3, arrays + quantifiers)",
    ref="5 C13"),
  "C19": dict(
